@@ -112,6 +112,7 @@ def run(res, f, tier):
     for var in f.adts[EXPR]["variants"]:
         nkinds += 1
         it = Interp(f)
+        it.walkers_opaque = False      # the folder and its per-collection helpers are what is being read here
         st = State()
         v = evalsum.sym_fields(it, EXPR, var["name"], "e")
         rows = sorted((tuple(sorted(norm_cond(c) for c in s.conds)), show(norm(it.resolve(s, rv)))) for s, rv in it.run(flatten, [v], st))
